@@ -2070,13 +2070,15 @@ class FileBuilder:
                         cache_filename))
             try:
                 self._new_cache.write(cache_filename)
-            except Exception:
+            except BaseException:
                 # Don't leave a partially written cache file behind. (If there
                 # was a cache file before, _roll_back restores it.)
                 FileBuilder._try_to_remove_file(cache_filename)
                 raise
             logger.info('Wrote cache file {:s}'.format(cache_filename))
-        except Exception:
+        except BaseException:
+            # This includes exceptions that don't derive from Exception, such
+            # as KeyboardInterrupt and SystemExit
             self._is_finished_build = True
             self._roll_back(cache_file_created_dirs)
             raise
